@@ -14,30 +14,7 @@ def run(repo, res, tier):
         "that satisfy firstpos's contract. T2: no parser handler can swallow a LexerError (token-protocol engine). "
         "Not decided: that line/column arithmetic is right for every text (values are not computed).")
     res.assumptions = ["precondition of char_allowed: a single character", "str.encode('ascii') succeeds iff ord <= 127"]
-    n = 0
-    for c in tables.grammar_classes(repo):
-        ca = interval.CharAllowed(repo, c)
-        t, f, e = ca.accepted()
-        n += 1
-        exp = interval.EXPECTED.get(c)
-        res.samples.append({"grammar": c, "accepted": repr(t), "raises": repr(e), "resolved_through": ca.visited})
-        if exp is None:
-            res.notes.append(f"{c}: no expected set in the property statement; accepted {t!r}")
-            continue
-        ok = (t == exp) and not e
-        res.oblige("I1", f"{c}.char_allowed accepts exactly {exp!r}", ok=ok, detail=f"accepted {t!r}")
-        if not ok:
-            extra_ = t - exp
-            missing = exp - t
-            w = extra_.sample() if extra_ else missing.sample()
-            res.add(Finding("I1", f"{c}.char_allowed", "accepted set",
-                            f"{c}.char_allowed accepts {t!r} but the dialect's character set is {exp!r}"
-                            + (f"; wrongly accepted: {extra_!r}" if extra_ else "")
-                            + (f"; wrongly rejected: {missing!r}" if missing else "")
-                            + (f"; raises for {e!r}" if e else ""),
-                            witness=None if w is None else f"U+{w:04X}"))
-    res.floor("grammar classes with char_allowed", n, 5)
-    res.stat("evaluations", 1114112 * n, add=False)
+    common.rule_i1(repo, res)
     guard_info = lexrules.rule_i2(repo, res)
     lexrules.rule_i3(repo, res, guard_info)
     lexrules.rule_lookahead(repo, res)
